@@ -37,7 +37,10 @@ without copying (the correspondence check compares *every* live object after *ev
 so a change of that fact shows up as a mismatch); Go's hash maps are association lists
 observed only through sorted keys; floats are half-integers (`Val.flt t` = t/2) of small
 magnitude, for which `float64(int) == float` and float sums are exact; NaN, infinities,
--0.0 and rounding are not modelled.
+-0.0 and rounding are not modelled. Ints are exact at EVERY magnitude (`numKey`): sorting
+lists that hold neighbouring ints beyond 2^53 has a reference reading of its own
+(`Spec.isSortOf`), and `f64OfInt` models what a float64 sees of an int only to state that a
+sort through float keys is no sort.
 -/
 namespace Risor.C16
 
@@ -339,10 +342,65 @@ def cmpVal (h : Heap) (fuel : Nat) (a b : Val) : Cmp :=
     | .ok c => if c = -1 then .lt else .ge
     | .err => .err
 
+/-! ### numbers of every magnitude: what "sorted" means for them
+
+`Int.Compare(Int)` compares the int64 values themselves, so two ints are told apart however
+large they are (2^53 and 2^53+1, MaxInt64-1 and MaxInt64 — pairs a float64 cannot tell apart).
+`numKey` is TWICE the exact value of a number (an integer for ints, bytes and the half-integer
+floats of the model); the reference reading of a sort of numbers is stated with it. -/
+
+/-- twice the exact numeric value; `none` for anything that is no number -/
+def numKey : Val → Option Int
+  | .int i => some (2 * i)
+  | .byte n => some (2 * (n : Int))
+  | .flt t => some t
+  | _ => none
+
+def isNum (v : Val) : Bool := (numKey v).isSome
+
+def keyOf (v : Val) : Int := (numKey v).getD 0
+
+/-- the comparator "less by exact value" -/
+def keyCmp (a b : Val) : Cmp := if keyOf a < keyOf b then .lt else .ge
+
+/-- Spec: the items are in ascending order of their exact values -/
+def Spec.ascending : List Val → Bool
+  | a :: b :: rest => decide (keyOf a ≤ keyOf b) && Spec.ascending (b :: rest)
+  | _ => true
+
+/-- the items of `xs` whose value equals that of `v`, in the order they have in `xs` -/
+def Spec.sameValue (v : Val) (xs : List Val) : List Val := xs.filter (fun x => keyOf x == keyOf v)
+
+/-- Spec: "`ys` is `xs` sorted" for lists of numbers — ascending by exact value, and for every
+    value the items having it are the same objects in the same (input) order: nothing lost,
+    duplicated or invented, and the sort is stable (an ascending arrangement is pinned down by
+    what it holds per value: `ascending_ints_unique` states it for ints). -/
+def Spec.isSortOf (xs ys : List Val) : Bool :=
+  Spec.ascending ys && (xs ++ ys).all (fun v => Spec.sameValue v ys == Spec.sameValue v xs)
+
+/-- what a sort through float64 keys sees of an int: `float64(i)` (round to nearest, ties to
+    even, 53 significant bits), as an exact integer. NOT what `Int.Compare` looks at; kept to
+    state why sorting numbers through float keys is no sort (`C16_float_keys_do_not_sort`). -/
+def f64OfInt (i : Int) : Int :=
+  let a := i.natAbs
+  if a < 9007199254740992 then i else
+  let e := Nat.log2 a - 52
+  let q := a / 2 ^ e
+  let r := a % 2 ^ e
+  let half := 2 ^ (e - 1)
+  let q' := if r > half || (r == half && q % 2 == 1) then q + 1 else q
+  (if i < 0 then -1 else 1) * ((q' * 2 ^ e : Nat) : Int)
+
+/-- the comparator of a sort that precomputes float64 keys for ints -/
+def f64KeyCmp (a b : Val) : Cmp :=
+  match a, b with
+  | .int x, .int y => if f64OfInt x < f64OfInt y then .lt else .ge
+  | _, _ => keyCmp a b
+
 /-! ### Impl: list contents, as the code computes -/
 namespace Impl
 
-def getItem (items : List Val) (i : Int) : Option Val :=
+def getItem(items : List Val) (i : Int) : Option Val :=
   match resolveIndex i items.length with
   | .ok k => items[k.toNat]?
   | .err => none
